@@ -26,6 +26,7 @@ import (
 	"strings"
 	"sync"
 	"sync/atomic"
+	"syscall"
 	"time"
 
 	"github.com/fatedier/frp/client/proxy"
@@ -784,6 +785,12 @@ func directedHealthRecon() [][]rstep {
 		// not registered before the first success; withdrawn on failure; registered again
 		{up(h, b), ok(0), ok(1), {op: opHealth, name: 0, h: 0}, ok(0), {op: opWork, name: 0},
 			{op: opHealth, name: 0, h: 1}, {op: opWork, name: 0}, ok(0), {op: opHealth, name: 0, h: 0}, ok(0), up(b), {op: opWork, name: 0}},
+		// health failure while the NewProxy is unanswered (wait start): withdrawn at once (CloseProxy,
+		// check failed); the late success reply is ignored; registered again after the next success
+		{up(h, b), {op: opHealth, name: 0, h: 0}, {op: opHealth, name: 0, h: 1}, ok(0), {op: opWork, name: 0},
+			{op: opHealth, name: 0, h: 0}, ok(0), {op: opWork, name: 0}},
+		{up(h), {op: opHealth, name: 0, h: 0}, {op: opSettle}, {op: opHealth, name: 0, h: 1}, {op: opSettle},
+			{op: opHealth, name: 0, h: 0}, {op: opHealth, name: 0, h: 1}, ok(0), up(h)},
 	}
 }
 
@@ -935,13 +942,22 @@ func runReconcile(cfg *hx.RunCfg) error {
 	if err != nil {
 		return err
 	}
-	// a port that refuses connections: the wrappers' own monitors stay inert (no success, no callback)
-	ln, err := net.Listen("tcp", "127.0.19.250:0")
+	// a port that refuses connections for the whole run: a socket that is bound but never listens (the
+	// kernel answers with RST and nobody else can take the port).  The wrappers' own monitors stay
+	// inert: no probe succeeds, so no callback fires.
+	fd, err := syscall.Socket(syscall.AF_INET, syscall.SOCK_STREAM, 0)
 	if err != nil {
 		return err
 	}
-	closedPort = ln.Addr().(*net.TCPAddr).Port
-	ln.Close()
+	defer syscall.Close(fd)
+	if err := syscall.Bind(fd, &syscall.SockaddrInet4{Port: 0, Addr: [4]byte{127, 0, 19, 250}}); err != nil {
+		return err
+	}
+	sa, err := syscall.Getsockname(fd)
+	if err != nil {
+		return err
+	}
+	closedPort = sa.(*syscall.SockaddrInet4).Port
 
 	proxy.VerifSetTiming(longTime, longTime, longTime)
 	g := hx.NewGen(cfg.Seed)
@@ -990,7 +1006,8 @@ func runReconcile(cfg *hx.RunCfg) error {
 			"Definition NREPLACED := Eval vm_compute in count_if c19_case_replaces cases.\nPrint NREPLACED.\n" +
 			"Definition NDUPLICATE := Eval vm_compute in count_if c19_case_has_duplicate cases.\nPrint NDUPLICATE.\n" +
 			"Definition NRETRIED := Eval vm_compute in count_if c19_case_retries_start_error cases.\nPrint NRETRIED.\n" +
-			"Definition NRUNNING := Eval vm_compute in count_if c19_case_reaches_running cases.\nPrint NRUNNING.\n",
+			"Definition NRUNNING := Eval vm_compute in count_if c19_case_reaches_running cases.\nPrint NRUNNING.\n" +
+			"Definition NWITHDRAWNWAITING := Eval vm_compute in count_if c19_case_withdrawn_while_waiting cases.\nPrint NWITHDRAWNWAITING.\n",
 	}
 	dist := map[string]int{}
 	seen := map[string]bool{}
